@@ -227,6 +227,7 @@ func c20(c *Ctx) {
 	}
 
 	w.allExits("C20.all-exits")
+	w.localWriters("C20.all-exits")
 
 	w.noUseAfter()
 	w.heldOnlyWithoutPool()
